@@ -227,6 +227,20 @@ def fact_cache_methods_locked(repo):
         return None
 
 
+def fact_vkey_split_last(repo):
+    """MementoCodec.decode_versioned_data_source_key splits with rfind("#") (True); find / partition / split (False)"""
+    try:
+        fn = _cls_fn(repo, "serialization.py", "MementoCodec", "decode_versioned_data_source_key")
+        names = _calls(fn)
+        if "rfind" in names or "rpartition" in names or "rsplit" in names:
+            return True
+        if "find" in names or "partition" in names or "split" in names or "index" in names:
+            return False
+        return None
+    except Exception:
+        return None
+
+
 FACTS = []
 
 
@@ -275,6 +289,11 @@ def _f7(repo):
 @fact("cache_methods_locked", "option bool")
 def _f8(repo):
     return _opt_bool(fact_cache_methods_locked(repo))
+
+
+@fact("vkey_split_last", "option bool")
+def _f9(repo):
+    return _opt_bool(fact_vkey_split_last(repo))
 
 
 def generate(repo):
